@@ -22,6 +22,11 @@ SPEC (a dict; everything the source does not say itself)
   outs      [(local name, type)]   locals of a fragment that are results (fields of the returned record)
   actions   {call statement text: lean term}, action_type: calls with effects outside the model become entries of
             the trace field `acts : List action_type`
+  raise_state  False: an exception discards the attribute writes (a constructor: the object is never seen) — the result
+            is `Except Err St` instead of `Res St α`
+  drop_calls   call statements the spec declares outside the model (`super().__init__(src_packet)`)
+  calls     {python function name: {lean, args, ret, raises}}   other translated functions this one calls
+  fuel      {start of a `while` statement: python expression}   an upper bound of its rounds (see `PyRt.whileS`)
   exits     True: the value of the definition is how the fragment was left (`PyRt.Exit`: fall / cont / brk / ret)
 types: Int, Nat (an int known to be ≥ 0), Bool, Bytes, List T, Set T (a Python set; only `in` and `|` under `in`),
        Option T, Dict K V, anything else = an opaque type with decidable equality (only == != and assignment).
@@ -97,12 +102,17 @@ def is_int(t):
 def elem_type(t):
     for p in ("List ", "Set ", "Option "):
         if t.startswith(p):
-            return t[len(p):].strip("()")
+            return unparen(t[len(p):])
     return None
+
+
+TYPE_ALIAS = {"Str": "List Nat"}           # spec types that are names for Lean types (a spec may add its own: `types`)
 
 
 def ty(t):
     """Lean spelling of a spec type"""
+    if t in TYPE_ALIAS:
+        return TYPE_ALIAS[t]
     if t.startswith("Set "):
         return "List " + ty_arg(t[4:])
     if t.startswith("List "):
@@ -112,13 +122,37 @@ def ty(t):
     if t.startswith("Dict "):
         k, v = split_dict(t)
         return f"PyRt.Dict {ty_arg(k)} {ty_arg(v)}"
+    if t.startswith("Table "):
+        k, v = split_table(t)
+        return f"List ({ty_arg(k)} × {ty_arg(v)})"
+    if "|" in t:
+        a, b = t.split("|")
+        return f"Sum {ty_arg(a)} {ty_arg(b)}"
     if t == "None":
         return "Unit"
     return t
 
 
+def split_table(t):
+    """`Table K; V`: a dict display as an association list in display order"""
+    k, v = t[len("Table "):].split(";", 1)
+    return k.strip(), v.strip()
+
+
+def unparen(t):
+    """`t` without ONE pair of parentheses around the whole of it"""
+    t = t.strip()
+    if t.startswith("("):
+        depth = 0
+        for i, ch in enumerate(t):
+            depth += (ch == "(") - (ch == ")")
+            if depth == 0:
+                return t[1:-1].strip() if i == len(t) - 1 else t
+    return t
+
+
 def ty_arg(t):
-    s = ty(t.strip("()"))
+    s = ty(unparen(t))
     return f"({s})" if " " in s else s
 
 
@@ -134,6 +168,7 @@ class Frame:
     def ret(self, val, env, node): raise NotImplementedError
     def raise_(self, errterm, env): raise NotImplementedError
     def cont(self, env, node): raise NotImplementedError
+    def brk(self, env, node): raise NotImplementedError
 
 
 class Translator:
@@ -153,6 +188,10 @@ class Translator:
         self.joins = {}
         self.init_used = set()
         self.synthetic = set()
+        self.owned = set()
+        TYPE_ALIAS.clear()
+        TYPE_ALIAS.update({"Str": "List Nat"})
+        TYPE_ALIAS.update(spec.get("types", {}))
 
     # ------------------------------------------------------------------------------------------- helpers
     def bad(self, node, reason):
@@ -195,6 +234,19 @@ class Translator:
             if v.typ.startswith("Option "):
                 self.bad(node, f"type {v.typ} where {typ} is expected")
             return f"(some {self.coerce(v, inner, node)})"
+        for src, fmt in self.spec.get("unions", {}).get(typ, ()):
+            if v.typ == src:
+                return "(" + fmt.format(v.term) + ")"
+        if v.typ == "EmptyDict" and typ.startswith("Table "):
+            return f"([] : {ty(typ)})"
+        if "|" in typ:
+            a, b = typ.split("|")
+            if is_int(v.typ) and a == "Int":
+                return f"(Sum.inl {self.to_int(v)} : {ty(typ)})"
+            if v.typ == b:
+                return f"(Sum.inr {v.term} : {ty(typ)})"
+        if v.typ == "EmptyList" and typ.startswith("List "):
+            return f"([] : {ty(typ)})"
         if v.typ == "EmptyDict" and typ in self.spec.get("empty_dict", {}):
             return self.spec["empty_dict"][typ]
         self.bad(node, f"type {v.typ} where {typ} is expected")
@@ -230,6 +282,8 @@ class Translator:
             return V(f"({c} : Int)", "Int", False, lit=c)
         if isinstance(c, bytes):
             return V("([" + ", ".join(str(b) for b in c) + "] : Bytes)", "Bytes")
+        if isinstance(c, str):
+            return V("([" + ", ".join(str(ord(ch)) for ch in c) + "] : List Nat)", "Str")       # the code points
         if c is None:
             return V("none", "NoneType")
         self.bad(node, f"literal of type {type(c).__name__} is outside the subset")
@@ -241,7 +295,27 @@ class Translator:
         return V(v.term, v.typ, v.nn, v.lit)
 
     def e_Attribute(self, node, env):
+        if isinstance(node.value, ast.Name) and node.value.id in env:
+            x = env[node.value.id]
+            f = self.spec.get("attr_funcs", {}).get((x.typ, node.attr))
+            if f is not None:
+                return V(f"({f[0]} {x.term})", f[1])
         self.bad(node, "attribute read that the spec does not list as a place or constant")
+
+    def e_Tuple(self, node, env):
+        els = [self.expr(e, env) for e in node.elts]
+        if len(els) < 2 or any(e.typ in ("NoneType", "EmptyDict", "EmptyList") for e in els):
+            self.bad(node, "tuple display with fewer than two elements or an element of unknown type")
+        return V("(" + ", ".join(e.term for e in els) + ")", " × ".join(e.typ if " " not in e.typ else f"({e.typ})" for e in els))
+
+    def e_List(self, node, env):
+        if not node.elts:
+            return V("[]", "EmptyList")
+        els = [self.expr(e, env) for e in node.elts]
+        t = els[0].typ
+        for e in els[1:]:
+            t = self.join_type(t, e.typ, node)
+        return V("[" + ", ".join(self.coerce(e, t, node) for e in els) + "]", f"List {t}" if " " not in t else f"List ({t})")
 
     def e_Dict(self, node, env):
         if node.keys:
@@ -310,6 +384,8 @@ class Translator:
         op = type(node.op).__name__
         a = self.expr(node.operand, env)
         if op == "Not":
+            if is_int(a.typ):
+                return V(f"(decide ({a.term} = 0))", "Bool")          # `not n` is `n == 0`
             if a.typ != "Bool":
                 self.bad(node, f"`not` on {a.typ} (truthiness of non-bools is outside the subset)")
             return V(f"(!{a.term})", "Bool")
@@ -353,6 +429,11 @@ class Translator:
             if b.typ.startswith("Dict "):
                 kt = split_dict(b.typ)[0]
                 return f"({neg}(({b.term}) {self.coerce(a, kt, node)}).isSome)"
+            if a.typ == "Str" and b.typ == "Str":
+                return f"({neg}PyRt.strIn {a.term} {b.term})"
+            if b.typ.startswith("Table "):
+                kt = split_table(b.typ)[0]
+                return f"({neg}(PyRt.tableGet {b.term} {self.coerce(a, kt, node)}).isSome)"
             et = elem_type(b.typ) if b.typ.startswith(("List ", "Set ")) else None
             if et is None:
                 self.bad(node, f"`in` on {b.typ}")
@@ -366,6 +447,16 @@ class Translator:
             self.bad(node, f"`is` between {a.typ} and {b.typ}")
         if o in ("Eq", "NotEq"):
             rel = "=" if o == "Eq" else "≠"
+            # a value that is an int or a tuple: equal to an int iff it is that int (a tuple never equals an int)
+            un = self.spec.get("unions", {})
+            if a.typ in un and a.typ != b.typ:
+                return f"(decide ({a.term} {rel} {self.coerce(b, a.typ, node)}))"
+            if b.typ in un and a.typ != b.typ:
+                return f"(decide ({self.coerce(a, b.typ, node)} {rel} {b.term}))"
+            if "|" in a.typ and is_int(b.typ):
+                return f"(decide ({a.term} {rel} {self.coerce(b, a.typ, node)}))"
+            if "|" in b.typ and is_int(a.typ):
+                return f"(decide ({self.coerce(a, b.typ, node)} {rel} {b.term}))"
             if is_int(a.typ) and is_int(b.typ):
                 if a.typ == b.typ:
                     return f"(decide ({a.term} {rel} {b.term}))"
@@ -390,7 +481,9 @@ class Translator:
         left = self.expr(node.left, env)
         out = []
         for i, (op, cn) in enumerate(zip(node.ops, node.comparators)):
-            right = self.cmp_operand(cn, env) if i == 0 else self.strict(lambda cn=cn: self.cmp_operand(cn, env))
+            memb = isinstance(op, (ast.In, ast.NotIn))
+            rd = (lambda cn=cn: self.cmp_operand(cn, env)) if memb else (lambda cn=cn: self.expr(cn, env))
+            right = rd() if i == 0 else self.strict(rd)
             out.append(self.cmp1(node, op, left, right))
             left = right
         return V(out[0] if len(out) == 1 else "(" + " && ".join(out) + ")", "Bool")
@@ -425,7 +518,7 @@ class Translator:
         return V(f"(if {c.term} then {self.coerce(a, t, node)} else {self.coerce(b, t, node)})", t, a.nn and b.nn)
 
     def join_type(self, a, b, node):
-        if a == b:
+        if a == b or b is None:
             return a
         if is_int(a) and is_int(b):
             return "Int"
@@ -469,6 +562,9 @@ class Translator:
             if not is_int(i.typ):
                 self.bad(node, f"index of type {i.typ}")
             return V(self.hoist(f"PyRt.getItem {x.term} {self.to_int(i)}", "Nat", node), "Nat", True)
+        if x.typ.startswith("Table "):
+            kt, vt = split_table(x.typ)
+            return V(self.hoist(f"PyRt.tableGetE {x.term} {self.coerce(i, kt, node)}", vt, node), vt)
         if x.typ.startswith("Dict "):
             kt, vt = split_dict(x.typ)
             return V(self.hoist(f"PyRt.dictGetE {x.term} {self.coerce(i, kt, node)}", vt, node), vt)
@@ -486,6 +582,21 @@ class Translator:
             if not (x.typ == "Bytes" or x.typ.startswith("List ")):
                 self.bad(node, f"len of {x.typ}")
             return V(f"(List.length {x.term})", "Nat", True)
+        if fname == "bool" and len(node.args) == 1 and not kw:
+            x = self.expr(node.args[0], env)
+            if x.typ == "Bool":
+                return x
+            if is_int(x.typ):
+                return V(f"(decide ({x.term} ≠ 0))", "Bool")
+            if x.typ == "Bytes" or x.typ.startswith("List "):
+                return V(f"(!(List.isEmpty {x.term}))", "Bool")
+            self.bad(node, f"bool() of {x.typ}")
+        if fname in ("bytes", "bytearray", "copy.deepcopy") and len(node.args) == 1 and not kw:
+            # a bytes-like VALUE: the copy is the same value (mutation is only translated for locals this function created)
+            x = self.expr(node.args[0], env)
+            if x.typ == "Bytes":
+                return V(x.term, "Bytes")
+            self.bad(node, f"{fname}() of {x.typ}")
         if fname == "int" and not kw:
             if len(node.args) == 1:
                 x = self.expr(node.args[0], env)
@@ -533,12 +644,36 @@ class Translator:
                     self.bad(node, f"to_bytes on {n.typ}, {k.typ}")
                 return V(self.hoist(f"PyRt.toBytesE {self.to_int(n)} {self.to_int(k)}", "Bytes", node), "Bytes")
             self.bad(node, "to_bytes other than (length, 'big'[, signed=False])")
+        if isinstance(f, ast.Attribute) and f.attr in ("keys", "get") and not kw:
+            t = self.expr(f.value, env)
+            if t.typ.startswith("Table "):
+                kt, vt = split_table(t.typ)
+                if f.attr == "keys" and not node.args:
+                    return V(f"(PyRt.tableKeys {t.term})", f"List {kt}" if " " not in kt else f"List ({kt})")
+                if f.attr == "get" and len(node.args) == 1:
+                    k = self.expr(node.args[0], env)
+                    vo = f"Option {vt}" if " " not in vt else f"Option ({vt})"
+                    if "|" in k.typ and k.typ.split("|")[1] == kt:
+                        return V(f"(PyRt.tableGetU {t.term} {k.term})", vo)      # an int is no key of this table
+                    return V(f"(PyRt.tableGet {t.term} {self.coerce(k, kt, node)})", vo)
+        if isinstance(f, ast.Call) and "class_call" in self.spec and not kw:
+            # `<looked-up class>(args)`: None is not callable (TypeError); a class runs its translated constructor
+            cc = self.spec["class_call"]
+            c = self.expr(f, env)
+            if c.typ != cc["type"] or len(node.args) != len(cc["args"]):
+                self.bad(node, f"call of a value of type {c.typ}")
+            args = [self.coerce(self.expr(a, env), t, node) for a, t in zip(node.args, cc["args"]) if t is not None]
+            if any(t is None and not isinstance(a, ast.Name) for a, t in zip(node.args, cc["args"])):
+                self.bad(node, "an ignored argument that is not a plain name")
+            return V(self.hoist(f"PyRt.callClass {c.term} (fun py_c => {cc['lean']} py_c " + " ".join(args) + ")", cc["ret"], node), cc["ret"])
         calls = self.spec.get("calls", {})
         if fname in calls and not kw:
             c = calls[fname]
             if len(node.args) != len(c["args"]):
                 self.bad(node, f"call of `{fname}` with {len(node.args)} arguments, the spec knows {len(c['args'])}")
-            args = [self.coerce(self.expr(a, env), t, node) for a, t in zip(node.args, c["args"])]
+            if any(t is None and not isinstance(a, ast.Name) for a, t in zip(node.args, c["args"])):
+                self.bad(node, "an ignored argument that is not a plain name")
+            args = [self.coerce(self.expr(a, env), t, node) for a, t in zip(node.args, c["args"]) if t is not None]
             term = f"{c['lean']} " + " ".join(args)
             if c.get("raises"):
                 return V(self.hoist(term, c["ret"], node), c["ret"])
@@ -590,8 +725,11 @@ class Translator:
         """env after `target = v`, and the `let` line"""
         env = dict(env)
         if isinstance(target, ast.Name):
-            if v.typ in ("NoneType", "EmptyDict"):
-                self.bad(node, "a local of unknown type (assigned None or {})")
+            decl = self.spec.get("locals", {}).get(target.id)
+            if decl is not None:
+                v = V(self.coerce(v, decl, node), decl, v.nn and decl == "Int")
+            if v.typ in ("NoneType", "EmptyDict", "EmptyList"):
+                self.bad(node, "a local of unknown type (assigned None, {} or []): declare it in the spec's `locals`")
             n = lname(target.id)
             if target.id in self.reserved or not (lname_ok(target.id) or target.id in self.synthetic):
                 self.bad(node, f"local `{target.id}` clashes with a Lean name of the spec or of the emitted text")
@@ -617,10 +755,75 @@ class Translator:
             if isinstance(v, (ast.Name, ast.Constant)) or (isinstance(v, (ast.List, ast.Dict, ast.Tuple)) and not ast.unparse(v).strip("[]{}()")):
                 return self.block(rest, env, frame)
             self.bad(st, "write to an ignored attribute whose right-hand side is not a name, constant or empty display")
+        tg = st.targets[0]
+        if isinstance(tg, ast.Subscript) and isinstance(tg.value, ast.Name) and self.key(tg) not in self.places:
+            return self.subscript_assign(st, tg, rest, env, frame)
+        if isinstance(st.value, ast.Name) and st.value.id in self.owned:
+            self.bad(st, "a second name for a bytearray this function mutates (aliasing)")
         v, hs = self.eval(st.value, env)
+        if isinstance(tg, ast.Name):
+            fresh = (isinstance(st.value, ast.Call) and self.key(st.value.func) in ("bytearray", "copy.deepcopy")
+                     and v.typ == "Bytes")
+            (self.owned.add if fresh else self.owned.discard)(tg.id)
 
         def inner():
-            env2, line = self.bind(st.targets[0], v, env, st)
+            env2, line = self.bind(tg, v, env, st)
+            return line + "\n" + self.block(rest, env2, frame)
+        return self.with_hoists(hs, env, frame, inner)
+
+    def table_set(self, st, name_node, key_node, val_node, rest, env, frame, key_first=False):
+        """`d[k] = v` / `d.update({k: v})` on a dict local this function created (declared in the spec's `locals`)"""
+        x = env[name_node.id]
+        kt, vt = split_table(x.typ)
+        saved, self.hoists = self.hoists, []
+        try:
+            # Python evaluates the value before the key in `d[k] = v`, the key before the value in a display `{k: v}`
+            if key_first:
+                k = self.expr(key_node, env)
+                v = self.expr(val_node, env)
+            else:
+                v = self.expr(val_node, env)
+                k = self.expr(key_node, env)
+            hs = self.hoists
+        finally:
+            self.hoists = saved
+
+        def inner():
+            new = V(f"(PyRt.tableSet {x.term} {self.coerce(k, kt, st)} {self.coerce(v, vt, st)})", x.typ)
+            env2, line = self.bind(name_node, new, env, st)
+            return line + "\n" + self.block(rest, env2, frame)
+        return self.with_hoists(hs, env, frame, inner)
+
+    def subscript_assign(self, st, tg, rest, env, frame):
+        """`x[a:b] = v` / `x[i] = v` on a bytearray local created in this function (`bytearray(…)`, `copy.deepcopy(…)`)"""
+        name = tg.value.id
+        if (name in env and env[name].typ.startswith("Table ") and name in self.spec.get("locals", {})
+                and not isinstance(tg.slice, ast.Slice)):
+            return self.table_set(st, tg.value, tg.slice, st.value, rest, env, frame)
+        if name not in self.owned or name not in env or env[name].typ != "Bytes":
+            self.bad(st, "subscript assignment to anything but a bytearray local this function created")
+        x = env[name]
+        saved, self.hoists = self.hoists, []
+        try:
+            if isinstance(tg.slice, ast.Slice):
+                if tg.slice.step is not None or tg.slice.lower is None or tg.slice.upper is None:
+                    self.bad(st, "slice assignment with a step or an omitted bound")
+                lo, hi, v = self.expr(tg.slice.lower, env), self.expr(tg.slice.upper, env), self.expr(st.value, env)
+                if not (is_int(lo.typ) and lo.nn and is_int(hi.typ) and hi.nn and v.typ == "Bytes"):
+                    self.bad(st, "slice assignment with bounds not known to be ≥ 0 or a value that is not bytes")
+                new = V(f"(PyRt.setSlice {x.term} {self.to_nat(lo)} {self.to_nat(hi)} {v.term})", "Bytes")
+            else:
+                # Python evaluates the right-hand side first, then the index
+                v, i = self.expr(st.value, env), self.expr(tg.slice, env)
+                if not (is_int(i.typ) and is_int(v.typ)):
+                    self.bad(st, "item assignment with an index or value that is not an int")
+                new = V(self.hoist(f"PyRt.setItemE {x.term} {self.to_int(i)} {self.to_int(v)}", "Bytes", st), "Bytes")
+            hs = self.hoists
+        finally:
+            self.hoists = saved
+
+        def inner():
+            env2, line = self.bind(tg.value, new, env, st)
             return line + "\n" + self.block(rest, env2, frame)
         return self.with_hoists(hs, env, frame, inner)
 
@@ -644,6 +847,23 @@ class Translator:
     def s_Continue(self, st, rest, env, frame):
         return frame.cont(env, st)
 
+    def s_Break(self, st, rest, env, frame):
+        return frame.brk(env, st)
+
+    EXC = {"KeyError": "key", "IndexError": "index", "ValueError": "value", "ZeroDivisionError": "zeroDiv",
+           "OverflowError": "overflow", "TypeError": "type"}
+
+    def s_Try(self, st, rest, env, frame):
+        if st.orelse or st.finalbody or not st.handlers:
+            self.bad(st, "try with else/finally or without a handler")
+        hs = []
+        for h in st.handlers:
+            if not (isinstance(h.type, ast.Name) and h.type.id in self.EXC):
+                self.bad(h, "except clause that does not name one of " + ", ".join(self.EXC))
+            hs.append((self.EXC[h.type.id], list(h.body)))
+        after = ContFrame(self, frame, rest)
+        return self.block(list(st.body), env, TryFrame(self, after, hs))
+
     def append_call(self, st):
         """`<place>.append(x)` on a list place of the spec → (place key, argument node)"""
         c = st.value if isinstance(st, ast.Expr) else None
@@ -654,6 +874,19 @@ class Translator:
         return None
 
     def s_Expr(self, st, rest, env, frame):
+        c0 = st.value
+        if (isinstance(c0, ast.Call) and isinstance(c0.func, ast.Attribute) and c0.func.attr == "append" and len(c0.args) == 1
+                and not c0.keywords and isinstance(c0.func.value, ast.Name) and c0.func.value.id in env
+                and env[c0.func.value.id].typ.startswith("List ") and c0.func.value.id in self.spec.get("locals", {})):
+            # a list local this function created (`x = []`, declared in the spec's `locals`): append rebinds it
+            x = env[c0.func.value.id]
+            v, hs = self.eval(c0.args[0], env)
+
+            def inner():
+                new = V(f"({x.term} ++ [{self.coerce(v, elem_type(x.typ), st)}])", x.typ)
+                env2, line = self.bind(c0.func.value, new, env, st)
+                return line + "\n" + self.block(rest, env2, frame)
+            return self.with_hoists(hs, env, frame, inner)
         ap = self.append_call(st)
         if ap is not None:
             pk, arg = ap
@@ -666,7 +899,28 @@ class Translator:
                 env2, line = self.bind(st.value.func.value, new, env, st)
                 return line + "\n" + self.block(rest, env2, frame)
             return self.with_hoists(hs, env, frame, inner)
+        if (isinstance(c0, ast.Call) and isinstance(c0.func, ast.Attribute) and c0.func.attr == "update" and len(c0.args) == 1
+                and not c0.keywords and isinstance(c0.func.value, ast.Name) and c0.func.value.id in env
+                and env[c0.func.value.id].typ.startswith("Table ") and c0.func.value.id in self.spec.get("locals", {})
+                and isinstance(c0.args[0], ast.Dict) and len(c0.args[0].keys) == 1 and c0.args[0].keys[0] is not None):
+            d = c0.args[0]
+            return self.table_set(st, c0.func.value, d.keys[0], d.values[0], rest, env, frame, key_first=True)
         k = self.key(st)
+        if k in self.spec.get("drop_calls", ()):
+            return self.block(rest, env, frame)              # the spec declares this call outside the model
+        c = st.value
+        if (isinstance(c, ast.Call) and isinstance(c.func, ast.Attribute) and c.func.attr == "extend" and len(c.args) == 1
+                and not c.keywords and isinstance(c.func.value, ast.Name) and c.func.value.id in self.owned
+                and c.func.value.id in env):
+            v, hs = self.eval(c.args[0], env)
+            if v.typ != "Bytes":
+                self.bad(st, f"extend() with {v.typ}")
+            x = env[c.func.value.id]
+
+            def inner():
+                env2, line = self.bind(c.func.value, V(f"({x.term} ++ {v.term})", "Bytes"), env, st)
+                return line + "\n" + self.block(rest, env2, frame)
+            return self.with_hoists(hs, env, frame, inner)
         if k in self.actions:
             env2 = dict(env)
             env2["__acts"] = V("acts'", env["__acts"].typ, False)
@@ -676,8 +930,10 @@ class Translator:
 
     def s_If(self, st, rest, env, frame):
         c, hs = self.eval(st.test, env)
+        if is_int(c.typ):
+            c = V(f"(decide ({c.term} ≠ 0))", "Bool")                 # an int is true iff it is not 0
         if c.typ != "Bool":
-            self.bad(st.test, f"condition of type {c.typ} (truthiness of non-bools is outside the subset)")
+            self.bad(st.test, f"condition of type {c.typ} (truthiness of anything but bools and ints is outside the subset)")
 
         def inner():
             simple = self.try_join(c, st.body, st.orelse, env, st)
@@ -694,6 +950,8 @@ class Translator:
         for s in stmts:
             if isinstance(s, (ast.Assign, ast.AugAssign, ast.AnnAssign)):
                 for t in (s.targets if isinstance(s, ast.Assign) else [s.target]):
+                    if isinstance(t, ast.Subscript) and isinstance(t.value, ast.Name) and self.key(t) not in self.places:
+                        t = t.value
                     key = t.id if isinstance(t, ast.Name) else ("place", self.key(t))
                     if key not in acc:
                         acc.append(key)
@@ -703,10 +961,14 @@ class Translator:
             elif isinstance(s, ast.Match):
                 for c in s.cases:
                     self.assigned(c.body, acc)
-            elif isinstance(s, ast.For):
+            elif isinstance(s, (ast.For, ast.While)):
                 self.assigned(s.body, acc)
             elif isinstance(s, ast.Expr) and self.key(s) in self.actions and "__acts" not in acc:
                 acc.append("__acts")
+            elif (isinstance(s, ast.Expr) and isinstance(s.value, ast.Call) and isinstance(s.value.func, ast.Attribute)
+                  and s.value.func.attr in ("extend", "append", "update") and isinstance(s.value.func.value, ast.Name)):
+                if s.value.func.value.id not in acc:
+                    acc.append(s.value.func.value.id)
             elif self.append_call(s) is not None and ("place", self.append_call(s)[0]) not in acc:
                 acc.append(("place", self.append_call(s)[0]))
         return acc
@@ -764,76 +1026,171 @@ class Translator:
             ast.fix_missing_locations(n)
         return self.block(new + list(rest), env, frame)
 
+    def loop_iter(self, st, env):
+        """the iterable of a `for`: → (Lean list term, [(python name, lean type, nn)] bound per element, hoists)"""
+        it, tg = st.iter, st.target
+
+        def names(t):
+            ns = [t] if isinstance(t, ast.Name) else (list(t.elts) if isinstance(t, ast.Tuple) else None)
+            if ns is None or not all(isinstance(n, ast.Name) for n in ns):
+                self.bad(st, "loop target other than a name or a tuple of names")
+            for n in ns:
+                if n.id in self.reserved or not lname_ok(n.id):
+                    self.bad(st, f"loop variable `{n.id}` clashes with a Lean name of the spec or of the emitted text")
+            return [n.id for n in ns]
+        if isinstance(it, ast.Call) and self.key(it.func) == "range" and 1 <= len(it.args) <= 3 and not it.keywords:
+            (nm,) = names(tg) if isinstance(tg, ast.Name) else (None,)
+            if nm is None:
+                self.bad(st, "tuple target over range()")
+            lo_node = it.args[0] if len(it.args) >= 2 else ast.Constant(value=0)
+            hi_node = it.args[1] if len(it.args) >= 2 else it.args[0]
+            lo, hs1 = self.eval(lo_node, env)
+            hi, hs2 = self.eval(hi_node, env)
+            if not (is_int(lo.typ) and is_int(hi.typ)):
+                self.bad(st, "range bounds that are not ints")
+            if len(it.args) == 3:
+                stp, hs3 = self.eval(it.args[2], env)
+                if not (stp.lit is not None and stp.lit > 0 and lo.typ == "Nat" and hi.typ == "Nat") or hs3:
+                    self.bad(st, "range() with a step other than a positive literal over bounds known to be ≥ 0")
+                return f"(PyRt.rangeStep {lo.term} {hi.term} {stp.lit})", [(nm, "Nat", True)], hs1 + hs2
+            if lo.typ == "Nat" and hi.typ == "Nat":
+                return f"(List.range' {lo.term} ({hi.term} - {lo.term}))", [(nm, "Nat", True)], hs1 + hs2
+            return f"(PyRt.rangeL {self.to_int(lo)} {self.to_int(hi)})", [(nm, "Int", lo.nn)], hs1 + hs2
+        if isinstance(it, ast.Call) and self.key(it.func) == "enumerate" and len(it.args) == 1 and not it.keywords:
+            x, hs = self.eval(it.args[0], env)
+            ns = names(tg)
+            if x.typ != "Bytes" or len(ns) != 2:
+                self.bad(st, "enumerate() of anything but bytes, or not unpacked into two names")
+            return f"(PyRt.enumFrom 0 {x.term})", [(ns[0], "Nat", True), (ns[1], "Nat", True)], hs
+        x, hs = self.eval(it, env)
+        if x.typ.startswith("Table ") and isinstance(tg, ast.Name):
+            kt = split_table(x.typ)[0]
+            return f"(PyRt.tableKeys {x.term})", [(names(tg)[0], kt, kt == "Nat")], hs      # a dict iterates over its keys
+        if x.typ == "Bytes" and isinstance(tg, ast.Name):
+            return f"(PyRt.bytesNat {x.term})", [(names(tg)[0], "Nat", True)], hs
+        et = elem_type(x.typ) if x.typ.startswith("List ") else None
+        if et is not None:
+            ns = names(tg)
+            parts = [p.strip() for p in et.split("×")] if len(ns) > 1 else [et]
+            if len(parts) != len(ns):
+                self.bad(st, f"loop target does not match the element type {et}")
+            return x.term, [(n, t, t == "Nat") for n, t in zip(ns, parts)], hs
+        self.bad(st, "loop over anything but range(), enumerate(bytes), bytes or a list of the spec")
+
     def s_For(self, st, rest, env, frame):
         if st.orelse:
             self.bad(st, "for … else")
-        if not isinstance(st.target, ast.Name):
-            self.bad(st, "loop target other than a name")
-        it = st.iter
-        if not (isinstance(it, ast.Call) and self.key(it.func) == "range" and 1 <= len(it.args) <= 2 and not it.keywords):
-            self.bad(st, "loop over anything but range(a[, b])")
-        for n in ast.walk(ast.Module(body=st.body, type_ignores=[])):
-            if isinstance(n, (ast.Return, ast.Break, ast.Continue)):
-                self.bad(n, "return/break/continue inside a loop body")
-        lo_node = it.args[0] if len(it.args) == 2 else ast.Constant(value=0)
-        hi_node = it.args[-1]
-        lo, hs1 = self.eval(lo_node, env)
-        hi, hs2 = self.eval(hi_node, env)
-        if not (is_int(lo.typ) and is_int(hi.typ)):
-            self.bad(st, "range bounds that are not ints")
-        i = lname(st.target.id)
-        if st.target.id in self.reserved or not lname_ok(st.target.id):
-            self.bad(st, f"loop variable `{st.target.id}` clashes with a Lean name of the spec or of the emitted text")
+        lst, bound, hs = self.loop_iter(st, env)
+        ety = " × ".join(ty_arg(t) if " " in ty(t) else ty(t) for _, t, _ in bound)
+        if len(bound) == 1:
+            binder, pre = f"({lname(bound[0][0])} : {ety})", ""
+        else:
+            binder = f"(py_i : {ety})"
+            pre = "".join(f"let {lname(n)} : {ty(t)} := py_i" + ".2" * k + (".1" if k < len(bound) - 1 else "") + "\n"
+                          for k, (n, t, _) in enumerate(bound))
+        return self.with_hoists(hs, env, frame, lambda: self.loop_core(
+            st, rest, env, frame, bound, lambda init, fn, step: (
+                (f"PyRt.forS {lst} {init} {fn}") if step else (lst, init, fn)), binder, pre))
 
-        def inner():
-            if lo.typ == "Nat" and hi.typ == "Nat":
-                rng, ityp = f"(List.range' {lo.term} ({hi.term} - {lo.term}))", "Nat"
-            else:
-                rng, ityp = f"(PyRt.rangeL {self.to_int(lo)} {self.to_int(hi)})", "Int"
-            mod = [m for m in self.assigned(st.body, []) if m in env]      # loop state; other assigned names are loop-local
-            envl = dict(env)
-            for _ in range(3):
-                # types / signs of the state at the head of the body must be what the body leaves (loop invariant)
-                envb = dict(envl)
-                envb[st.target.id] = V(i, ityp, ityp == "Nat" or lo.nn)
-                for m in mod:
-                    envb[m] = V(self.state_name(m), envl[m].typ, envl[m].nn)
-                lf = LoopFrame(self, mod)
-                saved = (self.tmp, self.raises)
-                self.raises = False
-                body = self.block(st.body, envb, lf)
-                body_raises = self.raises
-                stable = all(self.join_type(envl[m].typ, t, st) == envl[m].typ and (not envl[m].nn or n)
-                             for m, (t, n) in zip(mod, lf.result_types()))
-                if stable:
-                    self.raises = saved[1] or body_raises
-                    break
-                for m, (t, n) in zip(mod, lf.result_types()):
-                    jt = self.join_type(envl[m].typ, t, st)
-                    envl[m] = V(self.coerce(envl[m], jt, st), jt, envl[m].nn and n)
-                self.tmp, self.raises = saved
-            else:
-                self.bad(st, "loop state types do not stabilise")
-            tys = [ty(envl[m].typ) for m in mod]
-            sty = " × ".join(tys) if tys else "Unit"
-            proj = lambda j: "py_s" if len(mod) == 1 else ("py_s" + ".2" * j + (".1" if j < len(mod) - 1 else ""))
-            unpack = "".join(f"let {self.state_name(m)} : {ty(envl[m].typ)} := {proj(j)}\n" for j, m in enumerate(mod))
-            init = "(" + ", ".join(envl[m].term for m in mod) + ")" if mod else "()"
-            body = lf.fill(body, [envl[m].typ for m in mod], body_raises)
-            fn = f"(fun (py_s : {sty}) ({i} : {ityp}) =>\n{ind(unpack + body, 4)})"
-            env2 = dict(env)
+    def s_While(self, st, rest, env, frame):
+        if st.orelse:
+            self.bad(st, "while … else")
+        fuels = self.spec.get("fuel", {})
+        hit = [v for k, v in fuels.items() if ast.unparse(st).startswith(k)]
+        if len(hit) != 1:
+            self.bad(st, "while loop for which the spec gives no fuel expression (an upper bound of the number of rounds; "
+                         "running out of it is the distinct result `.fuel`, which the theorem must exclude)")
+        fuel, hs = self.eval(ast.parse(hit[0], mode="eval").body, env)
+        if hs or not fuel.nn:
+            self.bad(st, "fuel expression that may raise or is not known to be ≥ 0")
+        return self.loop_core(st, rest, env, frame, [], None, None, "", fuel=self.to_nat(fuel))
+
+    def loop_core(self, st, rest, env, frame, bound, mk, binder, pre, fuel=None):
+        """shared by `for` and `while`: loop state = the variables assigned in the body that exist before the loop"""
+        has_ret = False
+
+        def own(stmts):
+            """statements of this loop's body, not those of loops nested in it"""
+            for x in stmts:
+                yield x
+                if isinstance(x, (ast.For, ast.While)):
+                    continue
+                for f in ("body", "orelse", "handlers", "finalbody"):
+                    sub = getattr(x, f, None)
+                    if isinstance(sub, list):
+                        yield from own([y for y in sub if isinstance(y, ast.stmt)])
+                        for y in sub:
+                            if isinstance(y, ast.ExceptHandler):
+                                yield from own(y.body)
+                if isinstance(x, ast.Match):
+                    for c in x.cases:
+                        yield from own(c.body)
+        has_ret = any(isinstance(x, ast.Break) for x in own(st.body))
+        for n in ast.walk(ast.Module(body=st.body, type_ignores=[])):
+            if isinstance(n, ast.Continue):
+                self.bad(n, "continue inside a loop body")
+            if isinstance(n, (ast.For, ast.While)) and any(isinstance(m, ast.Return) for m in ast.walk(n)):
+                self.bad(n, "return inside a nested loop")
+            has_ret = has_ret or isinstance(n, ast.Return)
+        step = has_ret or fuel is not None
+        mod = [m for m in self.assigned(st.body, []) if m in env]      # loop state; other assigned names are loop-local
+        envl = dict(env)
+        for _ in range(3):
+            # types / signs of the state at the head of the body must be what the body leaves (loop invariant)
+            envb = dict(envl)
+            for n, t, nn in bound:
+                envb[n] = V(lname(n), t, nn)
             for m in mod:
-                env2[m] = V(self.state_name(m), envl[m].typ, envl[m].nn)
-            for n in self.assigned(st.body, []) + [st.target.id]:
-                if n not in mod and n in env2:
-                    del env2[n]
-            if st.target.id in env2:
-                del env2[st.target.id]                               # bound after the loop only if it ran: not usable
-            if body_raises:
-                return (f"PyRt.tryE (PyRt.forE {rng} {init} {fn}) (fun py_e => {frame.raise_('py_e', env)}) (fun py_s =>\n"
-                        + ind(unpack + self.block(rest, env2, frame)) + ")")
-            return (f"let py_s : {sty} := List.foldl {fn} {init} {rng}\n" + unpack + self.block(rest, env2, frame))
-        return self.with_hoists(hs1 + hs2, env, frame, inner)
+                envb[m] = V(self.state_name(m), envl[m].typ, envl[m].nn)
+            lf = LoopFrame(self, mod, frame if step else None)
+            saved = (self.tmp, self.raises)
+            self.raises = False
+            cond = None
+            if fuel is not None:
+                cond = self.strict(lambda: self.expr(st.test, envb))
+                if cond.typ != "Bool":
+                    self.bad(st.test, f"condition of type {cond.typ}")
+            body = self.block(st.body, envb, lf)
+            body_raises = self.raises
+            stable = all(self.join_type(envl[m].typ, t, st) == envl[m].typ and (not envl[m].nn or n)
+                         for m, (t, n) in zip(mod, lf.result_types()))
+            if stable:
+                self.raises = saved[1] or body_raises or step
+                break
+            for m, (t, n) in zip(mod, lf.result_types()):
+                jt = self.join_type(envl[m].typ, t, st)
+                envl[m] = V(self.coerce(envl[m], jt, st), jt, envl[m].nn and n)
+            self.tmp, self.raises = saved
+        else:
+            self.bad(st, "loop state types do not stabilise")
+        tys = [ty_arg(envl[m].typ) if " " in ty(envl[m].typ) else ty(envl[m].typ) for m in mod]
+        sty = " × ".join(tys) if tys else "Unit"
+        proj = lambda j: "py_s" if len(mod) == 1 else ("py_s" + ".2" * j + (".1" if j < len(mod) - 1 else ""))
+        unpack = "".join(f"let {self.state_name(m)} : {ty(envl[m].typ)} := {proj(j)}\n" for j, m in enumerate(mod))
+        init = "(" + ", ".join(envl[m].term for m in mod) + ")" if mod else "()"
+        body = lf.fill(body, [envl[m].typ for m in mod], body_raises, step)
+        env2 = dict(env)
+        for m in mod:
+            env2[m] = V(self.state_name(m), envl[m].typ, envl[m].nn)
+        for n in self.assigned(st.body, []) + [b[0] for b in bound]:
+            if n not in mod and n in env2:
+                del env2[n]                                          # bound after the loop only if it ran: not usable
+        after = lambda: ind(unpack + self.block(rest, env2, frame))
+        if fuel is not None:
+            fn = f"(fun (py_s : {sty}) =>\n{ind(unpack + body, 4)})"
+            cf = f"(fun (py_s : {sty}) =>\n{ind(unpack + cond.term, 4)})"
+            loop = f"PyRt.whileS {fuel} {init} {cf} {fn}"
+        else:
+            fn = f"(fun (py_s : {sty}) {binder} =>\n{ind(unpack + pre + body, 4)})"
+            loop = mk(init, fn, step)
+        if step:
+            return (f"PyRt.loopS ({loop}) (fun py_e => {frame.raise_('py_e', env)}) (fun py_r => py_r) (fun py_s =>\n"
+                    + after() + ")")
+        lst, init, fn = loop
+        if body_raises:
+            return (f"PyRt.tryE (PyRt.forE {lst} {init} {fn}) (fun py_e => {frame.raise_('py_e', env)}) (fun py_s =>\n"
+                    + after() + ")")
+        return (f"let py_s : {sty} := List.foldl {fn} {init} {lst}\n" + unpack + self.block(rest, env2, frame))
 
     def state_name(self, m):
         if m == "__acts":
@@ -852,6 +1209,25 @@ class ContFrame(Frame):
     def ret(self, val, env, node): return self.parent.ret(val, env, node)
     def raise_(self, e, env): return self.parent.raise_(e, env)
     def cont(self, env, node): return self.parent.cont(env, node)
+    def brk(self, env, node): return self.parent.brk(env, node)
+
+
+class TryFrame(Frame):
+    """the body of a `try`: an exception one of the handlers names runs that handler (with the variables as they are
+    at the raise), then what follows the statement; any other goes on outwards"""
+    def __init__(self, tr, after, handlers):
+        self.tr, self.after, self.handlers = tr, after, handlers
+
+    def fall(self, env): return self.after.fall(env)
+    def ret(self, val, env, node): return self.after.ret(val, env, node)
+    def cont(self, env, node): return self.after.cont(env, node)
+    def brk(self, env, node): return self.after.brk(env, node)
+
+    def raise_(self, e, env):
+        out = self.after.raise_(e, env)
+        for kind, body in reversed(self.handlers):
+            out = f"(if decide ({e} = PyRt.Err.{kind}) then (\n{ind(self.tr.block(body, env, self.after))})\nelse {out})"
+        return out
 
 
 class JoinFrame(Frame):
@@ -866,6 +1242,7 @@ class JoinFrame(Frame):
     def ret(self, val, env, node): raise _NotSimple()
     def raise_(self, e, env): raise _NotSimple()
     def cont(self, env, node): raise _NotSimple()
+    def brk(self, env, node): raise _NotSimple()
 
     def finish(self, env, node, combine, parts):
         tr, mod = self.tr, self.mod
@@ -900,17 +1277,28 @@ class JoinFrame(Frame):
 
 
 class LoopFrame(Frame):
-    """a loop body: ends in the state tuple (wrapped in `.ok` when the body can raise)"""
-    def __init__(self, tr, mod):
-        self.tr, self.mod, self.ends = tr, mod, []
+    """a loop body: ends in the state tuple (wrapped in `.ok` when the body can raise; `.ok (.next …)` in a loop that can
+    be left by `return` or is a `while`: there `return` ends in `.ok (.ret <the definition's result>)`)"""
+    def __init__(self, tr, mod, parent=None):
+        self.tr, self.mod, self.ends, self.parent = tr, mod, [], parent
 
     def fall(self, env):
         self.ends.append(dict(env))
         return f"\0L{id(self)}_{len(self.ends) - 1}\0"
 
-    def ret(self, val, env, node): self.tr.bad(node, "return inside a loop body")
+    def ret(self, val, env, node):
+        if self.parent is None:
+            self.tr.bad(node, "return inside a loop body")
+        return f".ok (.ret {self.parent.ret(val, env, node)})"
+
     def cont(self, env, node): self.tr.bad(node, "continue inside a loop body")
     def raise_(self, e, env): return f".error {e}"
+
+    def brk(self, env, node):
+        if self.parent is None:
+            self.tr.bad(node, "break inside a loop body")
+        self.ends.append(dict(env))
+        return f"\0K{id(self)}_{len(self.ends) - 1}\0"
 
     def result_types(self):
         out = []
@@ -919,13 +1307,16 @@ class LoopFrame(Frame):
             for e in self.ends:
                 t = e[m].typ if t is None else self.tr.join_type(t, e[m].typ, None)
                 nn = nn and e[m].nn
+            if t is None:                      # every path through the body returns
+                t, nn = None, True
             out.append((t, nn))
         return out
 
-    def fill(self, body, typs, raises):
+    def fill(self, body, typs, raises, step=False):
         for j, e in enumerate(self.ends):
             tup = "(" + ", ".join(self.tr.coerce(e[m], t, None) for m, t in zip(self.mod, typs)) + ")" if self.mod else "()"
-            body = body.replace(f"\0L{id(self)}_{j}\0", f".ok {tup}" if raises else tup)
+            body = body.replace(f"\0L{id(self)}_{j}\0", f".ok (.next {tup})" if step else (f".ok {tup}" if raises else tup))
+            body = body.replace(f"\0K{id(self)}_{j}\0", f".ok (.brk {tup})")
         return body
 
 
@@ -955,11 +1346,15 @@ class TopFrame(Frame):
 
     def result(self, val, env, err=None):
         tr = self.tr
+        if err is not None and tr.spec.get("raise_state") is False:
+            return f"(.error {err})"                       # a constructor: the object under construction is discarded
         st = self.state(env)
         if err is not None:
             return f"(.raised {err} {st})" if st else f"(.error {err})"
         if st is None:
             return f"(.ok {val})" if tr.raises_final else val
+        if tr.raises_final and tr.spec.get("raise_state") is False:
+            return f"(.ok {st})" if tr.value_type == "Unit" else f"(.ok ({val}, {st}))"
         if tr.raises_final:
             return f"(.ok {val} {st})"
         return st if tr.value_type == "Unit" else f"({val}, {st})"
@@ -990,6 +1385,9 @@ class TopFrame(Frame):
 
     def raise_(self, e, env):
         return self.result(None, env, err=e)
+
+    def brk(self, env, node):
+        self.tr.bad(node, "break outside a loop")
 
     def cont(self, env, node):
         if not self.tr.exits:
@@ -1136,8 +1534,9 @@ def _translate(tr, func, spec, assume_raises):
         text = tr.block(list(body), env, top)
         vt = tr.value_type
         if stateful:
-            rtype = (f"PyRt.Res {tr.name}.St {ty_arg(vt)}" if tr.raises_final
-                     else (f"{tr.name}.St" if vt == "Unit" else f"{ty_arg(vt)} × {tr.name}.St"))
+            plain = f"{tr.name}.St" if vt == "Unit" else f"({ty_arg(vt)} × {tr.name}.St)"
+            rtype = ((f"Except PyRt.Err {plain}" if spec.get("raise_state") is False else f"PyRt.Res {tr.name}.St {ty_arg(vt)}")
+                     if tr.raises_final else (f"{tr.name}.St" if vt == "Unit" else f"{ty_arg(vt)} × {tr.name}.St"))
         else:
             rtype = f"Except PyRt.Err {ty_arg(vt)}" if tr.raises_final else vt
     out = []
